@@ -34,6 +34,18 @@ fn main() {
         common::init_default_dir();
     }
     let tier = args.get(2).map(|s| s.as_str()).unwrap_or("quick");
+    // wall-clock watchdog around the whole run: a node that wedges (a lock held forever in the code under test) must not
+    // hang the check. Its firing is INCONCLUSIVE, never a verdict; the limits are far above any run on a loaded machine.
+    if args[1].starts_with('C') && args[1].len() == 3 {
+        let limit: u64 = std::env::var("VERIF_WATCHDOG_S").ok().and_then(|x| x.parse().ok()).unwrap_or(if tier == "thorough" { 6 * 3600 } else { 1500 });
+        let prop = args[1].clone();
+        std::thread::spawn(move || {
+            std::thread::sleep(std::time::Duration::from_secs(limit));
+            println!("INCONCLUSIVE property={} reason=watchdog: the run did not finish within {} s (a thread of the node under test or of the harness is blocked)", prop, limit);
+            common::cleanup_scratch();
+            std::process::exit(2);
+        });
+    }
     let code = std::panic::catch_unwind(|| run(&args, tier)).unwrap_or_else(|e| {
         println!("INCONCLUSIVE property={} reason=harness error: {}", args[1], common::panic_msg(&e));
         2
